@@ -341,6 +341,8 @@ class Case:
                     transfer = "digestMismatch"
         if transfer == "digestMismatch" and src_bytes is None:
             transfer = "failedCheckSrc"
+        if transfer == "failedNoCheck" and mode == "garbled" and src_bytes is None:
+            transfer = "failedCheckSrc"       # bbcp never gets as far as printing a (garbled) digest: it fails on the missing source
         ctl = os.path.join(self.env.tmp, "toolctl.json")
         with open(ctl, "w") as fh:
             json.dump({"mode": mode}, fh)
@@ -352,6 +354,7 @@ class Case:
         io = self.node_io(dest)
         q = FairMultiFIFOQueue()
         line = f"w.op pull {self.req_str(req_row)} {dest.id} {transfer}"
+        av_before = db.StorageNode.get(id=dest.id).avail_gb          # (the task updates the row object it was given in place)
         dst_before = self.w.file_on(dest, f)
         try:
             if f.size_b is not None:
@@ -377,7 +380,7 @@ class Case:
             dmod._reserved_bytes[dest.name] = 0
         # the pull task ends by measuring the destination's free space and recording it in the index
         av_after = db.StorageNode.get(id=dest.id).avail_gb
-        if av_after != dest.avail_gb:
+        if av_after != av_before:
             line += f"\nw.op measure {dest.id} {'-' if av_after is None else round(av_after * 2 ** 20)}"
         return line, dict(kind="pull", transfer=transfer, route=pathdir, mode=mode, completed=bool(row.completed),
                           cancelled=bool(row.cancelled), src=src_bytes, dst_before=dst_before, dst_after=dst_after,
